@@ -1,7 +1,10 @@
 (* Props/C05.v -- property C05: encrypt then decrypt restores every string and stream.
-   Statements only; proofs live in Proofs/CryptoProofs*.v.   (rung 1 so far; object and document level follow) *)
+   Statements only; proofs live in Proofs/CryptoProofs*.v.
+   [P : prims] bundles the third-party primitives (MD5, SHA-2, AES block functions); [aes_ok P] is the one
+   law assumed of them: AES decryption inverts AES encryption on 16-byte blocks, which stay 16 bytes. *)
 From LV Require Import Base.Bytes Model.Obj Model.Crypto.Word Model.Crypto.RC4 Model.Crypto.PKCS5
-  Model.Crypto.Handler Proofs.CryptoProofs Proofs.CryptoProofsFilter.
+  Model.Crypto.Handler Proofs.CryptoProofs Proofs.CryptoProofsFilter Proofs.CryptoProofsObject
+  Proofs.CryptoProofsDoc.
 
 (* lopdf's RC4: decrypting what was encrypted under the same key gives the message back, for every key
    the constructor accepts (1..256 bytes; any other length panics = None) and every message *)
@@ -52,6 +55,51 @@ Theorem C05_rc4_differs_partial :
     rc4 key m <> Some m.
 Proof. exact rc4_ciphertext_differs. Qed.
 
+(* decrypt_object inverts encrypt_object on EVERY object (strings nested in arrays and dictionaries,
+   streams, per-stream Crypt overrides, the XRef / Metadata exemptions), whatever IVs were drawn; the
+   result is the object with the /Length entries Stream::set_content writes ([norm_len]) ... *)
+Theorem C05_object_rt :
+  forall P st id o ivs o' ivs',
+    aes_ok P -> encrypt_object P st id o ivs = Ok (o', ivs') -> decrypt_object P st id o' = Ok (norm_len st o).
+Proof. intros P st id o ivs o' ivs' HP. apply object_rt. exact HP. Qed.
+
+(* ... which is the object itself when its streams carry their own length as a direct integer *)
+Theorem C05_object_rt_exact :
+  forall P st id o ivs o' ivs',
+    aes_ok P -> lengths_ok st o ->
+    encrypt_object P st id o ivs = Ok (o', ivs') -> decrypt_object P st id o' = Ok o.
+Proof. exact object_rt_exact. Qed.
+
+(* Document level.  Domain: object ids at or below max_id (the invariant add_object relies on), no stale
+   /Encrypt entry in the plain trailer, no /Type /ObjStm stream (decrypt_raw re-parses those: C08).
+   Whenever the password authenticates on the encrypted document and key recovery ([decode]) yields the
+   key / filters / EncryptMetadata that encrypted it, decrypt_raw returns Ok with: every object restored
+   (up to set_content's /Length), the trailer restored exactly (/Encrypt removed), the encryption
+   dictionary object removed, max_id one higher (add_object's increment is not undone).
+   PARTIAL: the two hypotheses on authentication and key recovery are discharged per revision only by the
+   correspondence runs so far (they hold on every generated case for user and owner passwords); their
+   Coq proofs (auth_user_ok / auth_owner_ok of DESIGN 6 C05) are not done. *)
+Theorem C05_document_rt_partial :
+  forall P st d ivs d1 pw st',
+    aes_ok P -> max_id_ok d -> dict_get (d_trailer d) K_Encrypt = None -> has_objstm (d_objects d) = false ->
+    doc_encrypt P st d ivs = DOk d1 tt ->
+    authenticate_raw_password P d1 pw = Ok tt ->
+    decode P d1 pw = Ok st' -> st_equiv st st' ->
+    doc_decrypt_raw P d1 pw =
+      DOk {| d_version := d_version d; d_binary_mark := d_binary_mark d; d_trailer := d_trailer d;
+             d_objects := norm_objs st (d_objects d); d_max_id := (d_max_id d + 1)%N |} st'.
+Proof. exact doc_rt. Qed.
+
+Theorem C05_document_objects_exact :
+  forall st m, Forall (fun io => lengths_ok st (snd io)) m -> norm_objs st m = m.
+Proof. exact norm_objs_id. Qed.
+
+(* A password that does not authenticate is rejected with that error BEFORE anything is written:
+   [DErr] is the outcome "Err, document unchanged". *)
+Theorem C05_reject_leaves_unchanged :
+  forall P d pw e, authenticate_raw_password P d pw = Err e -> doc_decrypt_raw P d pw = DErr e.
+Proof. exact reject_leaves_unchanged. Qed.
+
 (* non-vacuity *)
 Theorem C05_example_rc4 :
   rc4 (bs "Key") (bs "Plaintext") = Some [xbb; xf3; x16; xe8; xd9; x40; xaf; x0a; xd3] /\
@@ -70,5 +118,10 @@ Print Assumptions C05_cbc_dec_enc.
 Print Assumptions C05_filter_rt.
 Print Assumptions C05_aes_differs.
 Print Assumptions C05_rc4_differs_partial.
+Print Assumptions C05_object_rt.
+Print Assumptions C05_object_rt_exact.
+Print Assumptions C05_document_rt_partial.
+Print Assumptions C05_document_objects_exact.
+Print Assumptions C05_reject_leaves_unchanged.
 Print Assumptions C05_example_rc4.
 Print Assumptions C05_example_pkcs5.
